@@ -37,6 +37,10 @@ func buildAlign(seed int64) (*Scenario, error) {
 	}
 	b.Tx(200, alice, Xfer(A, USD, 5*fct, BurnAddr()))
 	b.Tx(300, alice, Xfer(A, USD, 5*fct, BurnAddr())) // from 2.0.2 on: destroyed
+	// the mint address also holds assets that are NOT minted (pFCT) and more of one that is (pUSD):
+	// the burn at 433 takes what is left of the listed assets only
+	b.Tx(301, alice, Xfer(A, FCT, 7*fct+uint64(rng.Intn(100)), MintAddr()))
+	b.Tx(432, bob, Xfer(Bo, FCT, 3*fct, MintAddr()))
 	b.Tx(433, alice, Xfer(A, USD, fct, MintAddr()))
 	b.Dump(143, 144, 145, 287, 288, 289, 431, 432, 433)
 	return b.Finish()
